@@ -265,7 +265,8 @@ func (o *ObjectSchema) extractPropertyValue(propertyID string, v reflect.Value, 
 	if property.emptyIsDefault {
 		// Handle the case where the empty value corresponds to the default value.
 		defaultValue := reflect.New(property.ReflectedType()).Elem().Convert(valPtr.Type()).Interface()
-		if defaultValue == value {
+		// DeepEqual as in validateStruct: == panics for uncomparable field types such as slices and maps.
+		if reflect.DeepEqual(defaultValue, value) {
 			return nil, nil
 		}
 	}
